@@ -1,0 +1,37 @@
+//go:build verif
+// +build verif
+
+/*
+SPDX-License-Identifier: Apache-2.0
+*/
+
+package introduce
+
+import "github.com/hyperledger/aries-framework-go/pkg/didcomm/common/service"
+
+// VerifStates lists the state names of the Introduce state machine (verification hook).
+func VerifStates() []string {
+	return []string{stateNameNoop, stateNameStart, stateNameAbandoning, stateNameDone,
+		stateNameArranging, stateNameDelivering, stateNameConfirming,
+		stateNameRequesting, stateNameDeciding, stateNameWaiting}
+}
+
+// VerifCanTransition evaluates the real CanTransitionTo on two state names.
+func VerifCanTransition(from, to string) bool {
+	return stateFromName(from).CanTransitionTo(stateFromName(to))
+}
+
+// VerifMsgTypes lists the message types of the protocol.
+func VerifMsgTypes() []string {
+	return []string{RequestMsgType, ProposalMsgType, ResponseMsgType, ProblemReportMsgType, AckMsgType}
+}
+
+// VerifMsgTarget returns the name of the state a message of the given type and direction leads to.
+func VerifMsgTarget(msgType string, outbound bool) string {
+	s, err := nextState(service.DIDCommMsgMap{"@type": msgType}, outbound)
+	if err != nil {
+		return ""
+	}
+
+	return s.Name()
+}
